@@ -69,6 +69,16 @@ Init0(n0) == /\ seq = <<n0>> /\ cur = n0 /\ kind = [x \in {n0} |-> "section"]
              /\ func = 0 /\ funcs = {} /\ pend = [local |-> 0, global |-> 0] /\ placed = {}
              /\ vregs = <<>> /\ nann = 0 /\ fin = 0
 
+(* CodeHolder::reinit() (the Compiler's on_reinit): "BaseCompiler_clear" - no function, no pools, no virtual registers, no     *)
+(* annotations; the code is a fresh .text section again (allowed in every state, also after finalize())                           *)
+Reinit(r, n0, annots, pools, p) ==
+  /\ r = "Ok"
+  /\ n0 # Null /\ annots = 0 /\ pools = 0
+  /\ seq' = <<n0>> /\ cur' = n0 /\ kind' = [x \in {n0} |-> "section"]
+  /\ func' = 0 /\ funcs' = {} /\ pend' = [local |-> 0, global |-> 0] /\ placed' = {}
+  /\ vregs' = <<>> /\ nann' = 0 /\ fin' = 0
+  /\ Agrees(p)
+
 FuncOf(f) == CHOOSE F \in funcs : F.f = f
 IsPow2(n) == n \in {1, 2, 4, 8, 16, 32, 64, 128, 256, 512, 1024}
 
